@@ -31,6 +31,11 @@ struct Item {
     /// a packet the configuration phase tolerates, sent right before the hostile bytes (deviation bound 2)
     #[serde(default)]
     tolerated_first: Option<String>,
+    /// instead of raw bytes: an Encryption Response with a valid RSA layer whose verify token is the first n
+    /// bytes of the issued one (n <= 32) or the issued one followed by n - 32 more bytes (up to 117, the most
+    /// the RSA layer carries)
+    #[serde(default)]
+    enc_token_len: Option<usize>,
     /// a fault of the transport instead of (reset: after) the hostile bytes: reset | write-zero | write-fail |
     /// write-partial-zero | write-partial-fail (the write faults hit clientbound frame `fault_frame` of the
     /// honest exchange: status exchange for state 1, login with slow routing for state 9)
@@ -124,7 +129,7 @@ fn render_with(id: i32, parts: &[Part], k: usize, replacement: Vec<u8>) -> Vec<u
 fn items_for(state: usize, max: i32, thorough: bool) -> Vec<Item> {
     let mut v = vec![];
     let mut push = |class: &str, bytes: Vec<u8>, eof: bool, malformed: bool, refuse_now: bool| {
-        v.push(Item { state, max, class: class.into(), bytes_hex: hex(&bytes), eof, malformed, refuse_now, enc_secret_len: None, tolerated_first: None, fault: None, fault_frame: 0 })
+        v.push(Item { state, max, class: class.into(), bytes_hex: hex(&bytes), eof, malformed, refuse_now, enc_secret_len: None, tolerated_first: None, enc_token_len: None, fault: None, fault_frame: 0 })
     };
     // A. outer length alphabet: the prefix alone, then silence (out of range) or EOF (in range)
     let outer: Vec<(String, Vec<u8>, bool)> = vec![
@@ -232,11 +237,16 @@ fn items_for(state: usize, max: i32, thorough: bool) -> Vec<Item> {
     drop(push);
     if state == 6 {
         for n in [0usize, 1, 8, 15, 17, 24, 32, 100] {
-            v.push(Item { state, max, class: format!("valid-rsa-secret-len-{n}"), bytes_hex: String::new(), eof: true, malformed: true, refuse_now: false, enc_secret_len: Some(n), tolerated_first: None, fault: None, fault_frame: 0 });
+            v.push(Item { state, max, class: format!("valid-rsa-secret-len-{n}"), bytes_hex: String::new(), eof: true, malformed: true, refuse_now: false, enc_secret_len: Some(n), tolerated_first: None, enc_token_len: None, fault: None, fault_frame: 0 });
+        }
+    }
+    if state == 6 {
+        for n in [0usize, 1, 16, 31, 33, 48, 64, 116, 117] {
+            v.push(Item { state, max, class: format!("valid-rsa-token-len-{n}"), bytes_hex: String::new(), eof: true, malformed: true, refuse_now: false, enc_secret_len: None, tolerated_first: None, enc_token_len: Some(n), fault: None, fault_frame: 0 });
         }
     }
     let mut push = |class: &str, bytes: Vec<u8>, eof: bool, malformed: bool, refuse_now: bool| {
-        v.push(Item { state, max, class: class.into(), bytes_hex: hex(&bytes), eof, malformed, refuse_now, enc_secret_len: None, tolerated_first: None, fault: None, fault_frame: 0 })
+        v.push(Item { state, max, class: class.into(), bytes_hex: hex(&bytes), eof, malformed, refuse_now, enc_secret_len: None, tolerated_first: None, enc_token_len: None, fault: None, fault_frame: 0 })
     };
     // G. every [len][id][b] frame and two-byte bodies over a boundary alphabet, then EOF
     let ids: Vec<i32> = (0..=0x20).chain([0x7f]).collect();
@@ -272,9 +282,11 @@ fn build(it: &Item) -> Case {
     }
     // state 10: the hostile bytes arrive at 17 s, while the Keep Alive sent at 16 s is unanswered
     let when = if it.state == 10 { When::IdleAfter(17_000) } else { When::Idle };
-    match it.enc_secret_len {
-        Some(n) => case.script.push(st(when, Act::EncResponse(EncKind::SecretLen(n)))),
-        None => case.script.push(st(when, Act::Raw(common::unhex(&it.bytes_hex)))),
+    match (it.enc_secret_len, it.enc_token_len) {
+        (Some(n), _) => case.script.push(st(when, Act::EncResponse(EncKind::SecretLen(n)))),
+        (_, Some(n)) if n <= 32 => case.script.push(st(when, Act::EncResponse(EncKind::TokenPrefix(n)))),
+        (_, Some(n)) => case.script.push(st(when, Act::EncResponse(EncKind::TokenExtended(n - 32)))),
+        _ => case.script.push(st(when, Act::Raw(common::unhex(&it.bytes_hex)))),
     }
     if it.eof {
         case.script.push(st(When::With, Act::Eof));
@@ -456,20 +468,20 @@ pub fn run(cli: Cli) -> ! {
             pieces.push(honest[..honest.len() - 1].to_vec());
         }
         for bytes in pieces {
-            items.push(Item { state, max: 10_000, class: "transport:reset".into(), bytes_hex: hex(&bytes), eof: false, malformed: false, refuse_now: false, enc_secret_len: None, tolerated_first: None, fault: Some("reset".into()), fault_frame: 0 });
+            items.push(Item { state, max: 10_000, class: "transport:reset".into(), bytes_hex: hex(&bytes), eof: false, malformed: false, refuse_now: false, enc_secret_len: None, tolerated_first: None, enc_token_len: None, fault: Some("reset".into()), fault_frame: 0 });
         }
     }
     for (state, frames) in [(1usize, 2usize), (9, 9)] {
         for f in 0..frames {
             for fault in ["write-zero", "write-fail", "write-partial-zero", "write-partial-fail"] {
-                items.push(Item { state, max: 10_000, class: format!("transport:{fault}"), bytes_hex: String::new(), eof: false, malformed: false, refuse_now: false, enc_secret_len: None, tolerated_first: None, fault: Some(fault.into()), fault_frame: f });
+                items.push(Item { state, max: 10_000, class: format!("transport:{fault}"), bytes_hex: String::new(), eof: false, malformed: false, refuse_now: false, enc_secret_len: None, tolerated_first: None, enc_token_len: None, fault: Some(fault.into()), fault_frame: f });
             }
         }
     }
     // number of clientbound packets the honest prefix alone produces, per state
     let baseline: Vec<usize> = (0..N_STATES)
         .map(|s| {
-            let mut c = build(&Item { state: s, max: 10_000, class: String::new(), bytes_hex: String::new(), eof: false, malformed: false, refuse_now: false, enc_secret_len: None, tolerated_first: None, fault: None, fault_frame: 0 });
+            let mut c = build(&Item { state: s, max: 10_000, class: String::new(), bytes_hex: String::new(), eof: false, malformed: false, refuse_now: false, enc_secret_len: None, tolerated_first: None, enc_token_len: None, fault: None, fault_frame: 0 });
             c.script.truncate(prefix(s).len());
             c.horizon_ms = if s == 10 { 16_500 } else { 1 };
             crate::sim::run(&c).packets.len()
@@ -498,7 +510,7 @@ pub fn run(cli: Cli) -> ! {
     rep.set("distinct_nontrivial", json!(d));
     rep.set("states", json!(N_STATES));
     rep.set("exhaustive", json!(true));
-    rep.set("rule", json!("one hostile frame per run in each of 11 protocol states (the last: configuration phase, routing slow, the Keep Alive of the 16 s tick unanswered, hostile bytes at 17 s) x configured maximum {1,64,10000,2097151}: 10 outer length prefixes (alone, and followed by EOF), 8 inner length prefixes per length-prefixed field of every packet legal in the state, truncation of the honest frame at every byte offset + EOF, invalid UTF-8 per string, 4 out-of-range ordinals per enum, RSA ciphertext shapes, 9 well-formed Keep Alive frames with extreme ids in the configuration states, every [len][id][b] frame for id 0..0x20,0x7f and b 0..255 and 256 two-byte bodies; transport faults: the connection reset at a frame boundary and inside every legal frame of every state, and every clientbound frame of a status exchange and of a login with slow routing refused by the transport (Ok(0) or BrokenPipe, at once or after two bytes). distinct_nontrivial = distinct (state, class, result)."));
+    rep.set("rule", json!("one hostile frame per run in each of 11 protocol states (the last: configuration phase, routing slow, the Keep Alive of the 16 s tick unanswered, hostile bytes at 17 s) x configured maximum {1,64,10000,2097151}: 10 outer length prefixes (alone, and followed by EOF), 8 inner length prefixes per length-prefixed field of every packet legal in the state, truncation of the honest frame at every byte offset + EOF, invalid UTF-8 per string, 4 out-of-range ordinals per enum, RSA ciphertext shapes, valid RSA layers around secrets of 0-100 bytes and verify tokens of 0-117 bytes, 9 well-formed Keep Alive frames with extreme ids in the configuration states, every [len][id][b] frame for id 0..0x20,0x7f and b 0..255 and 256 two-byte bodies; transport faults: the connection reset at a frame boundary and inside every legal frame of every state, and every clientbound frame of a status exchange and of a login with slow routing refused by the transport (Ok(0) or BrokenPipe, at once or after two bytes). distinct_nontrivial = distinct (state, class, result)."));
     rep.sample(json!({"item": items[0]}));
     rep.sample(json!({"item": items[items.len() / 2]}));
     rep.sample(json!({"item": items[items.len() - 1]}));
